@@ -839,7 +839,7 @@ def judge_model(m, want_ort=True, custom_keys=()):
             # onnxruntime's support for (nested) functions is incomplete: a model with functions that ORT
             # refuses but the ONNX reference runtime loads is recorded as runtime-unsupported, not a failure
             ok_ref = False
-            if len(m.functions) and not bad:
+            if len(m.functions):
                 ok_ref, _ = reference_loads(m)
             if ok_ref:
                 ORT_UNSUPPORTED.append(str(e)[:120])
